@@ -377,14 +377,14 @@ Definition attribute (k : bytes) : tree :=
 (* input = [tag, payload]:
    tag 1 (keys):  payload = [requests]                     -> [[key bytes ...], prefix table bytes]
    tag 2 (store): payload = [ops]                          -> [dump after each op]
-   tag 3 (frame): payload = [c1, [[key, ids before, ids after] ...]] -> [attribute of each key]
+   tag 3 (frame): payload = [c1, [[key, ids before, ids after] ...]] -> [[attribute of each key]]
    tag 4 (lint):  payload = [[p, form] ...] expected sites -> the same list *)
 Definition run (input : tree) : tree :=
   let tag := tz (tnth 0 input) in
   let pl := tnth 1 input in
   if tag =? 1 then TL [TL (map run_key (tlist pl)); of_zs prefix_bytes]
   else if tag =? 2 then TL (run_ops [] (map dec_op (tlist pl)))
-  else if tag =? 3 then TL (map (fun ch => attribute (tbytes (tnth 0 ch))) (tlist (tnth 1 pl)))
+  else if tag =? 3 then TL [TL (map (fun ch => attribute (tbytes (tnth 0 ch))) (tlist (tnth 1 pl)))]
   else if tag =? 4 then TL (map (fun e => TL [TI (tz (tnth 0 e)); TI (tz (tnth 1 e))]) (tlist pl))
   else TL [].
 
@@ -441,7 +441,7 @@ Definition mon_change (c1 : bytes) (ch : tree) : list Z :=
     else [2]
   end.
 
-(* impl obs of the frame part = [attributes, [consumers whose getter-level state changed]];
+(* impl obs of the frame part = [attributes, [consumers whose getter-level state changed], result code];
    clause 3: the getter-level state of a consumer other than c1 changed *)
 Definition mon_frame (pl obs : tree) : list Z :=
   let c1 := tbytes (tnth 0 pl) in
